@@ -671,8 +671,9 @@ func (env *c14Env) offsets(lay *c14Layout, stride int, all bool) []int {
 		for k := max(0, n-64); k < n; k++ {
 			set[k] = true
 		}
+		w := env.c.N(1, 2)
 		for _, b := range lay.bounds {
-			for d := -2; d <= 2; d++ {
+			for d := -w; d <= w; d++ {
 				if k := b + d; k >= 0 && k < n {
 					set[k] = true
 				}
@@ -780,7 +781,7 @@ func runC14(c *core.Ctx) {
 	env.workdir = filepath.Join(c.OutDir, "pools")
 	_ = os.MkdirAll(env.workdir, 0o755)
 	defer os.RemoveAll(env.workdir)
-	c.Res.Rule = "files of 1-3 row groups (int64, dictionary string, optional plain string, repeated int32 columns; v1/v2 pages, snappy/zstd/gzip/none, bloom filters inline and deferred, page index, plaintext-footer and encrypted-footer encryption, MaxRowsPerRowGroup) written through Write batches / Flush / Close against a destination following a fault script: error at byte offset k or one short count with nil error at k; k = every offset (thorough, small files) or first 16, last 64, +-2 around every module boundary of the footer and a random stride (quick); x WriteBufferSize {0, 7, 100, default} x page buffers {default, 64-byte chunks, temp files} x bloom filters {inline, deferred in memory, deferred in files}. A case is one (file, configuration, fault); all are non-trivial (the fault lies inside the file). Plus every prefix length of every file through OpenFile + full read, ReadAt faults at every call index, File.ReadAt against the model, and failing page buffers."
+	c.Res.Rule = "files of 1-3 row groups (int64, dictionary string, optional plain string, repeated int32 columns; v1/v2 pages, snappy/zstd/gzip/none, bloom filters inline and deferred, page index, plaintext-footer and encrypted-footer encryption, MaxRowsPerRowGroup) written through Write batches / Flush / Close against a destination following a fault script: error at byte offset k or one short count with nil error at k; k = every offset (thorough, small files) or first 16, last 64, +-1 around every module boundary of the footer and a random stride (quick; +-2 and denser strides in thorough); x WriteBufferSize {0, 7, 100, default} x page buffers {default, 64-byte chunks, temp files} x bloom filters {inline, deferred in memory, deferred in files}. A case is one (file, configuration, fault); all are non-trivial (the fault lies inside the file). Plus every prefix length of every file through OpenFile + full read, ReadAt faults at every call index, File.ReadAt against the model, and failing page buffers."
 
 	if c.HasOracle() {
 		if ans := c.Ask("c14.flags"); !strings.HasSuffix(ans, " 1") || strings.Contains(strings.Split(ans, " ")[0], "0") {
@@ -1333,7 +1334,7 @@ func (env *c14Env) chunksOf(sp *c14Spec, ref []byte) []c14Chunk {
 	return out
 }
 
-// fileReadAt compares File.ReadAt (file.go:604, through the readAt wrapper)
+// fileReadAt compares File.ReadAt (file.go, through the readAt wrapper)
 // with the model for scripted answers of the underlying reader.
 type c14ScriptReaderAt struct {
 	data   []byte
